@@ -8,7 +8,7 @@ META = {
     "technique": 'contract-based deductive verification: symbolic execution of the real functions against sidecar contracts (z3/cvc5) for the proved units; bounded contract evaluation (enumerated scope / independent writer) for the rest',
     "level": "other",
     "partial": True,
-    "level_text": "Proof: _create_xref is executed on a stub method whose single instruction has a *symbolic opcode* (all 256 "
+    "level_text": "Bounded on REAL DEX files (no stub objects): random class models assembled by the independent DEX writer, merged or split into 1..3 files, parsed by the real DEX parser and analysed by the real Analysis: every method's callees / callers with offsets, the external flag and the call graph equal the model. Proof: _create_xref is executed on a stub method whose single instruction has a *symbolic opcode* (all 256 "
                   "values, one path per opcode class): exactly the invoke opcodes 0x6e-0x72 / 0x74-0x78 record a method xref, with "
                   "the instruction's offset, on the caller (xref_to) and on the resolved callee (xref_from), and nothing else is "
                   "recorded for them; _resolve_method returns the analysed method for a defined (class, name, descriptor) and one "
@@ -127,3 +127,45 @@ def exact_and_symmetric(U, chunk):
 
 
 exact_and_symmetric.enumerate_inputs = lambda tier, chunk: S.enum_inputs(tier, chunk)
+
+
+from contracts import xrefreal as XR  # noqa: E402
+import random as _random  # noqa: E402
+
+
+@unit("C13", covers=[(ANA, "Analysis._create_xref"), (ANA, "Analysis._resolve_method"), (ANA, "Analysis.get_call_graph")],
+      level="bounded", samples=60, note=XR.NOTE)
+def real_dex_method_xrefs(U):
+    seed = U.int("seed", 0, 1 << 30)
+    rng = _random.Random(seed)
+    classes = XR.model(rng)
+    groups = rng.choice(list(XR.splits(classes)))
+    o = U.call(XR.analyse, U, classes, groups)
+    U.ensures("analysis does not raise", o.ok, exc=repr(o.exc)[:200])
+    if not o.ok:
+        return
+    dx = o.value
+    exp, defined = XR.expected(classes)
+    v = S.view(dx)
+    want_from = {}
+    for me, calls in exp["to"].items():
+        for (cls, name, desc, off) in calls:
+            want_from.setdefault((cls, name, desc), set()).add((me, off))
+    for mk, d in v["methods"].items():
+        me = mk[:3]
+        got_to = {(m2[0], m2[1], m2[2], off) for _, m2, off in d["to"]}
+        if not mk[3]:
+            U.ensures("a method lists exactly the methods its invoke instructions name, with their offsets", got_to == exp["to"].get(me, set()),
+                      method=me, got=sorted(got_to), want=sorted(exp["to"].get(me, set())), groups=groups)
+        got_from = {(m2[:3], off) for _, m2, off in d["from"]}
+        U.ensures("a method lists exactly its callers, with the offsets of the calls", got_from == want_from.get(me, set()),
+                  method=me, got=sorted(got_from), want=sorted(want_from.get(me, set())), groups=groups)
+        declared = any(c["name"] == mk[0] and mk[1] in c["methods"] and mk[2] == "()V" for c in classes)
+        U.ensures("external = not declared by any class of the DEX files", mk[3] == (not declared), method=mk)
+    for me in exp["to"]:
+        U.ensures("every calling method is known to the analysis", any(k[:3] == me for k in v["methods"]), method=me)
+    cg = U.call(dx.get_call_graph)
+    if cg.ok:
+        edges = {((a.get_class_name(), a.get_name()), (b.get_class_name(), b.get_name())) for a, b in cg.value.edges()}
+        want_e = {((me[0], me[1]), (c[0], c[1])) for me, calls in exp["to"].items() for c in calls}
+        U.ensures("the call graph has exactly one edge per (caller, callee) pair", edges == want_e, got=sorted(edges)[:8], want=sorted(want_e)[:8])
